@@ -1,3 +1,534 @@
+(* Proofs about the header / block synchronisation model (property C02).
+   Invariant of the reachable states of model/Sync.v, for histories whose headers come from one
+   block tree (SyncSpec.sync_valid):
+     - the stored chain is genesis followed by headers (id, parent_of id), id <> 0, each linked to
+       the one below it (hence ranks strictly increase, hence no id is stored twice);
+     - before the start block is found (start_height = -1) there are no block requests and the
+       request window's last saved hash is the tip of the chain;
+     - at most MAXR requested blocks (when 0 <= MAXR).
+   From it: chain_ok in every reachable state, and the monitor c02_monitor never objects to the
+   model's own trace. *)
 From V.lib Require Import Base.
 From V.model Require Import Requests Sync SyncSpec.
 From V.gen Require Import Consts.
+
+Local Open Scope Z_scope.
+
+(* ---------------------------------------------------------------------------------------- *)
+(* Lists of headers                                                                          *)
+
+Lemma zlen_app' {A} (a b : list A) : zlen (a ++ b) = zlen a + zlen b.
+Proof. unfold zlen. rewrite app_length. lia. Qed.
+
+Lemma zlen_nonneg' {A} (l : list A) : 0 <= zlen l.
+Proof. unfold zlen. lia. Qed.
+
+Lemma zlen_cons' {A} (x : A) (l : list A) : zlen (x :: l) = 1 + zlen l.
+Proof. unfold zlen. cbn [length]. lia. Qed.
+
+Fixpoint last_id (p : Z) (c : list hdr) : Z :=
+  match c with
+  | [] => p
+  | h :: c' => last_id (fst h) c'
+  end.
+
+Definition tip_of (c : list hdr) : Z := match last c with Some h => fst h | None => -99 end.
+
+Lemma tip_tip_of s : tip s = tip_of (chain s).
+Proof. reflexivity. Qed.
+
+Lemma last_id_last p c : last_id p c = match last c with Some h => fst h | None => p end.
+Proof.
+  revert p. induction c as [|h c IH]; intros p; [reflexivity|].
+  cbn [last_id]. rewrite IH. destruct c as [|x c]; [reflexivity|].
+  change (last (h :: x :: c)) with (last (x :: c)).
+  destruct (last (x :: c)) eqn:E; [reflexivity|].
+  apply last_None in E. discriminate.
+Qed.
+
+Lemma tip_of_cons g c : tip_of (g :: c) = last_id (fst g) c.
+Proof.
+  unfold tip_of. rewrite last_id_last. destruct c as [|x c]; [reflexivity|].
+  change (last (g :: x :: c)) with (last (x :: c)).
+  destruct (last (x :: c)) eqn:E; [reflexivity|].
+  apply last_None in E. discriminate.
+Qed.
+
+Lemma tip_of_snoc c h : tip_of (c ++ [h]) = fst h.
+Proof. unfold tip_of. rewrite last_snoc. reflexivity. Qed.
+
+Lemma linked_from_snoc c : forall p h,
+  linked_from p (c ++ [h]) = linked_from p c && (snd h =? last_id p c).
+Proof.
+  induction c as [|x c IH]; intros p h.
+  - cbn. rewrite andb_true_r. reflexivity.
+  - cbn [app linked_from last_id]. rewrite IH. rewrite andb_assoc. reflexivity.
+Qed.
+
+Lemma linked_from_take c : forall p n, linked_from p c = true -> linked_from p (take n c) = true.
+Proof.
+  induction c as [|x c IH]; intros p n H.
+  - destruct n; reflexivity.
+  - destruct n as [|n]; [reflexivity|].
+    cbn [take linked_from] in *. apply andb_prop in H as [H1 H2].
+    rewrite H1, (IH _ _ H2). reflexivity.
+Qed.
+
+(* height_of: the first index of an id *)
+Definition hgo (id : Z) : list hdr -> Z -> option Z :=
+  fix go (c : list hdr) (i : Z) : option Z :=
+    match c with
+    | [] => None
+    | h :: c' => if fst h =? id then Some i else go c' (i + 1)
+    end.
+
+Lemma hgo_cons id h c i : hgo id (h :: c) i = if fst h =? id then Some i else hgo id c (i + 1).
+Proof. reflexivity. Qed.
+
+Lemma height_of_hgo s id : height_of s id = hgo id (chain s) 0.
+Proof. reflexivity. Qed.
+
+Lemma hgo_spec id c : forall i r,
+  hgo id c i = Some r ->
+  i <= r < i + zlen c /\ tip_of (take (Z.to_nat (r - i + 1)) c) = id.
+Proof.
+  induction c as [|h c IH]; intros i r H; [discriminate|].
+  rewrite hgo_cons in H. rewrite zlen_cons'. pose proof (zlen_nonneg' c) as Hc.
+  destruct (fst h =? id) eqn:E.
+  - injection H as <-. apply Z.eqb_eq in E. split; [lia|].
+    replace (i - i + 1) with 1 by lia. cbn. exact E.
+  - apply IH in H as [Hr Ht]. split; [lia|].
+    replace (Z.to_nat (r - i + 1)) with (S (Z.to_nat (r - (i + 1) + 1))) by lia.
+    cbn [take]. rewrite tip_of_cons.
+    remember (Z.to_nat (r - (i + 1) + 1)) as n eqn:Hn.
+    destruct n as [|n]; [lia|].
+    destruct c as [|x c]; [cbn in Hr; unfold zlen in Hr; cbn in Hr; lia|].
+    cbn [take] in *. rewrite tip_of_cons in Ht. cbn [last_id]. exact Ht.
+Qed.
+
+(* ---------------------------------------------------------------------------------------- *)
+(* Chains of a block tree                                                                    *)
+
+Section Tree.
+Variable parent_of : Z -> Z.
+
+Definition hdr_ok (h : hdr) : Prop := fst h <> 0 /\ snd h = parent_of (fst h).
+
+Definition chain_inv (c : list hdr) : Prop :=
+  exists c', c = genesis_hdr :: c' /\ linked_from 0 c' = true /\ Forall hdr_ok c'.
+
+Lemma chain_inv_snoc c h :
+  chain_inv c -> hdr_ok h -> snd h = tip_of c -> chain_inv (c ++ [h]).
+Proof.
+  intros (c' & -> & Hl & Hok) Hh Ht.
+  exists (c' ++ [h]). split; [reflexivity|]. split.
+  - rewrite linked_from_snoc, Hl. rewrite tip_of_cons in Ht. cbn [genesis_hdr fst] in Ht.
+    rewrite Ht. rewrite Z.eqb_refl. reflexivity.
+  - apply Forall_app. split; [exact Hok|]. constructor; [exact Hh|constructor].
+Qed.
+
+Lemma chain_inv_take c n : chain_inv c -> (1 <= n)%nat -> chain_inv (take n c).
+Proof.
+  intros (c' & -> & Hl & Hok) Hn. destruct n as [|n]; [lia|].
+  exists (take n c'). split; [reflexivity|]. split.
+  - apply linked_from_take. exact Hl.
+  - apply Forall_take. exact Hok.
+Qed.
+
+Lemma chain_inv_contains0 c : chain_inv c -> existsb (fun h : hdr => fst h =? 0) c = true.
+Proof. intros (c' & -> & _). reflexivity. Qed.
+
+Lemma chain_inv_digest_linked c :
+  chain_inv c -> match c with [] => true | h :: c' => linked_from (fst h) c' end = true.
+Proof. intros (c' & -> & Hl & _). exact Hl. Qed.
+
+Lemma chain_inv_zlen c : chain_inv c -> 1 <= zlen c.
+Proof. intros (c' & -> & _). rewrite zlen_cons'. pose proof (zlen_nonneg' c'). lia. Qed.
+
+Lemma chain_inv_ids c : chain_inv c -> exists l, map fst c = 0 :: l.
+Proof. intros (c' & -> & _). exists (map fst c'). reflexivity. Qed.
+
+Section Rank.
+Variable rk : Z -> Z.
+Hypothesis rk_lt : forall id, id <> 0 -> rk (parent_of id) < rk id.
+
+Lemma linked_rank c : forall p,
+  linked_from p c = true -> Forall hdr_ok c ->
+  Forall (fun h => rk p < rk (fst h)) c /\ nodup_ids c = true.
+Proof.
+  induction c as [|h c IH]; intros p Hl Hok.
+  - split; [constructor|reflexivity].
+  - cbn [linked_from] in Hl. apply andb_prop in Hl as [Hp Hl]. apply Z.eqb_eq in Hp.
+    inversion Hok as [|h0 c0 Hh Hok' E0]. destruct Hh as [Hnz Hpar].
+    destruct (IH _ Hl Hok') as [Hr Hnd].
+    assert (Hlt : rk p < rk (fst h)).
+    { rewrite <- Hp, Hpar. apply rk_lt. exact Hnz. }
+    split.
+    + constructor; [exact Hlt|]. eapply Forall_impl; [exact Hr|]. cbn. intros x Hx. lia.
+    + cbn [nodup_ids]. rewrite Hnd, andb_true_r. apply negb_true_iff.
+      apply not_true_is_false. intros Hex. apply existsb_exists in Hex as [x [Hin Hx]].
+      apply Z.eqb_eq in Hx.
+      rewrite List.Forall_forall in Hr. specialize (Hr x Hin). cbn in Hr. rewrite Hx in Hr. lia.
+Qed.
+
+Lemma chain_inv_ok c : chain_inv c -> chain_ok c.
+Proof.
+  intros (c' & -> & Hl & Hok). destruct (linked_rank c' 0 Hl Hok) as [Hr Hnd].
+  split; [exists c'; reflexivity|]. split.
+  - cbn. exact Hl.
+  - cbn [nodup_ids genesis_hdr fst]. rewrite Hnd, andb_true_r. apply negb_true_iff.
+    apply not_true_is_false. intros Hex. apply existsb_exists in Hex as [x [Hin Hx]].
+    apply Z.eqb_eq in Hx. rewrite List.Forall_forall in Hok. destruct (Hok x Hin) as [Hnz _].
+    contradiction.
+Qed.
+
+End Rank.
+End Tree.
+
+(* ---------------------------------------------------------------------------------------- *)
+(* The request window: at most MAXR requested blocks                                         *)
+
+Section Inv.
+Variable parent_of : Z -> Z.
+Variables MAXR LIM : Z.
+
+Definition win (r : rstate) : Prop := 0 <= MAXR -> zlen (requested r) <= MAXR.
+
+Lemma win_nil r : requested r = [] -> win r.
+Proof. intros E H. rewrite E. exact H. Qed.
+
+Lemma win_le r r1 : (length (requested r1) <= length (requested r))%nat -> win r -> win r1.
+Proof. unfold win, zlen. intros Hl Hw H0. specialize (Hw H0). lia. Qed.
+
+Lemma over_false r : over_threshold MAXR LIM r = false -> zlen (requested r) < MAXR.
+Proof.
+  unfold over_threshold. intros H. apply orb_false_elim in H as [H _].
+  rewrite Z.geb_leb in H. apply Z.leb_gt in H. exact H.
+Qed.
+
+Lemma abr_win r prev h r1 res :
+  add_block_request MAXR LIM r prev h = (r1, res) -> win r -> win r1.
+Proof.
+  unfold add_block_request. intros H Hw.
+  destruct (last (to_request r)) as [l|].
+  - destruct (negb (l =? prev)); injection H as <- <-; exact Hw.
+  - destruct (negb _). { injection H as <- <-; exact Hw. }
+    destruct (over_threshold MAXR LIM r) eqn:Hot; injection H as <- <-; [exact Hw|].
+    intros H0. cbn [requested]. apply over_false in Hot.
+    unfold zlen in *. rewrite app_length. cbn [length]. lia.
+Qed.
+
+Lemma fill_length l h size : forall l' d, fill l h size = Some (l', d) -> length l' = length l.
+Proof.
+  induction l as [|[x b] l IH]; intros l' d H; [discriminate|].
+  cbn [fill] in H. destruct (x =? h).
+  - injection H as <- _. reflexivity.
+  - destruct (fill l h size) as [[l2 d2]|]; [|discriminate].
+    injection H as <- _. cbn [length]. rewrite (IH _ _ eq_refl). reflexivity.
+Qed.
+
+Lemma add_block_win r h size r1 ok :
+  add_block r h size = (r1, ok) -> win r -> win r1 /\ (requested r = [] -> r1 = r).
+Proof.
+  unfold add_block. intros H Hw.
+  destruct (fill (requested r) h size) as [[l d]|] eqn:Ef.
+  - injection H as <- <-. split.
+    + eapply win_le; [|exact Hw]. cbn [requested]. apply fill_length in Ef. lia.
+    + intros E. rewrite E in Ef. discriminate.
+  - injection H as <- <-. auto.
+Qed.
+
+Lemma next_block_win r r1 p :
+  next_block r = (r1, p) -> win r ->
+  win r1 /\ (p = None -> r1 = r) /\ (requested r = [] -> p = None).
+Proof.
+  unfold next_block. intros H Hw.
+  destruct (requested r) as [|[h [size|]] l] eqn:Er; injection H as <- <-;
+    try (split; [exact Hw|split; [reflexivity|reflexivity]]).
+  split; [|split; [discriminate|discriminate]].
+  eapply win_le; [|exact Hw]. cbn [requested]. rewrite Er. cbn [length]. lia.
+Qed.
+
+Lemma get_next_win r r1 res : get_next MAXR LIM r = (r1, res) -> win r -> win r1.
+Proof.
+  unfold get_next. intros H Hw.
+  destruct (to_request r) as [|h l]; [injection H as <- <-; exact Hw|].
+  destruct (over_threshold MAXR LIM r) eqn:Hot; injection H as <- <-; [exact Hw|].
+  intros H0. cbn [requested]. apply over_false in Hot.
+  unfold zlen in *. rewrite app_length. cbn [length]. lia.
+Qed.
+
+Lemma clear_after_win r h : win r -> win (clear_after r h).
+Proof.
+  unfold clear_after. intros Hw.
+  destruct (find_idx (fun x : Z * option Z => fst x =? h) (requested r) 0) as [i|].
+  - eapply win_le; [|exact Hw]. cbn [requested]. rewrite take_length. lia.
+  - destruct (find_idx (fun x => x =? h) (to_request r) 0) as [i|]; exact Hw.
+Qed.
+
+(* ---------------------------------------------------------------------------------------- *)
+(* The invariant                                                                             *)
+
+Definition prestart (s : sync) : Prop :=
+  start_height s = -1 ->
+  requested (rq s) = [] /\ to_request (rq s) = [] /\ last_saved (rq s) = tip s.
+
+Definition Inv (s : sync) : Prop :=
+  chain_inv parent_of (chain s) /\ prestart s /\ win (rq s).
+
+Lemma Inv_ext s s' :
+  chain s' = chain s -> rq s' = rq s -> start_height s' = start_height s -> Inv s -> Inv s'.
+Proof.
+  intros Hc Hr Hs (H1 & H2 & H3). unfold Inv, prestart, tip. rewrite Hc, Hr, Hs.
+  split; [exact H1|]. split; [exact H2|exact H3].
+Qed.
+
+Lemma Inv_started s :
+  chain_inv parent_of (chain s) -> win (rq s) -> start_height s <> -1 -> Inv s.
+Proof. intros Hc Hw Hs. split; [exact Hc|]. split; [intros E; contradiction|exact Hw]. Qed.
+
+Lemma request_block_spec s prev h s' b :
+  request_block MAXR LIM s prev h = (s', b) ->
+  chain_inv parent_of (chain s) -> win (rq s) -> start_height s <> -1 ->
+  Inv s' /\ start_height s' <> -1 /\ chain s' = chain s.
+Proof.
+  unfold request_block. intros H Hc Hw Hs.
+  destruct (add_block_request MAXR LIM (rq s) prev h) as [r1 res] eqn:E.
+  apply abr_win in E; [|exact Hw].
+  destruct res as [[|]|e|]; injection H as <- <-; cbn;
+    (split; [apply Inv_started; cbn; assumption|split; [assumption|reflexivity]]).
+Qed.
+
+Lemma csh_spec s h s1 req :
+  check_start_height s h = (s1, req) -> Inv s -> hdr_ok parent_of h ->
+  (start_height s = -1 -> snd h = tip s) ->
+  Inv s1 /\ (req = true -> start_height s1 <> -1) /\ (start_height s1 = -1 -> fst h = tip s1).
+Proof.
+  unfold check_start_height. intros H (Hc & Hp & Hw) Hh Ht.
+  destruct (start_height s =? -1) eqn:Es.
+  - apply Z.eqb_eq in Es. destruct (Hp Es) as (Hr & Htr & Hls). specialize (Ht Es).
+    destruct (start_hash s =? fst h) eqn:Eh; injection H as <- <-.
+    + assert (Hne : height s + 1 <> -1).
+      { unfold height. pose proof (chain_inv_zlen _ _ Hc). lia. }
+      cbn. split; [apply Inv_started; cbn; assumption|].
+      split; [intros _; exact Hne|intros E; contradiction].
+    + split; [|split; [discriminate|]].
+      * split; [|split].
+        -- cbn. apply chain_inv_snoc; [exact Hc|exact Hh|exact Ht].
+        -- intros _. rewrite tip_tip_of. cbn. rewrite tip_of_snoc. auto.
+        -- exact Hw.
+      * intros _. rewrite tip_tip_of. cbn. rewrite tip_of_snoc. reflexivity.
+  - injection H as <- <-. apply Z.eqb_neq in Es.
+    split; [split; [exact Hc|split; [exact Hp|exact Hw]]|].
+    split; [intros _; exact Es|intros E; contradiction].
+Qed.
+
+Lemma Inv_clear s : Inv s -> Inv (upd_rq (upd_was (upd_ready s false) false) (clear_all (rq s))).
+Proof.
+  intros (Hc & Hp & Hw). split; [exact Hc|]. split.
+  - intros Hs. cbn in Hs. destruct (Hp Hs) as (_ & _ & Hl). cbn. auto.
+  - apply win_nil. reflexivity.
+Qed.
+
+Lemma Inv_revert s id rh :
+  Inv s -> height_of s id = Some rh ->
+  let s1 := upd_rq (upd_was (upd_ready s false) false) (clear_all (rq s)) in
+  let s2 := take_chain s1 rh in
+  let s3 := upd_rq s2 (set_last_hash (rq s2) (tip s2)) in
+  Inv s3 /\ tip s3 = id.
+Proof.
+  intros (Hc & Hp & Hw) Hh. rewrite height_of_hgo in Hh. apply hgo_spec in Hh as [Hr Ht].
+  replace (rh - 0 + 1) with (rh + 1) in Ht by lia.
+  cbn zeta. split.
+  - split; [|split].
+    + cbn. apply chain_inv_take; [exact Hc|lia].
+    + intros _. cbn. auto.
+    + apply win_nil. reflexivity.
+  - rewrite tip_tip_of. cbn. exact Ht.
+Qed.
+
+Lemma headers_loop_inv hs : forall s lh acc m,
+  Forall (hdr_ok parent_of) hs -> Inv s -> (start_height s = -1 -> lh = tip s) ->
+  Inv (headers_loop MAXR LIM s lh hs acc m).1.1.
+Proof.
+  induction hs as [|h hs IH]; intros s lh acc m Hhs HI Hlh; [exact HI|].
+  inversion Hhs as [|h0 hs0 Hh Hhs' E0]; subst h0 hs0.
+  cbn [headers_loop].
+  destruct (lh =? snd h) eqn:E1.
+  - apply Z.eqb_eq in E1.
+    destruct (check_start_height s h) as [s1 req] eqn:Ec.
+    apply csh_spec in Ec as (HI1 & Hreq & Htip1);
+      [|exact HI|exact Hh|intros Hs; rewrite <- E1; auto].
+    destruct req.
+    + destruct (request_block MAXR LIM s1 (snd h) (fst h)) as [s2 send] eqn:Er.
+      destruct HI1 as (Hc1 & _ & Hw1).
+      apply request_block_spec in Er as (HI2 & Hs2 & _); auto.
+      apply IH; auto. intros E; contradiction.
+    + apply IH; auto.
+  - destruct (fst h =? lh) eqn:E2; [apply IH; auto|].
+    destruct (contains s (fst h) || is_requested (rq s) (fst h) || is_to_be_requested (rq s) (fst h)) eqn:E3;
+      [apply IH; auto|].
+    destruct (is_requested (rq s) (snd h) || is_to_be_requested (rq s) (snd h)) eqn:E4.
+    + assert (Hs : start_height s <> -1).
+      { intros Hs. destruct HI as (_ & Hp & _). destruct (Hp Hs) as (Hr & Htr & _).
+        unfold is_requested, is_to_be_requested in E4. rewrite Hr, Htr in E4. discriminate. }
+      destruct (request_block MAXR LIM (upd_rq s (clear_after (rq s) (snd h))) (snd h) (fst h))
+        as [s2 send] eqn:Er.
+      destruct HI as (Hc & _ & Hw).
+      apply request_block_spec in Er as (HI2 & Hs2 & _);
+        [|exact Hc|cbn; apply clear_after_win; exact Hw|exact Hs].
+      apply IH; auto. intros E; contradiction.
+    + destruct (height_of s (snd h)) as [rh|] eqn:Eh; [|exact HI].
+      destruct (rh =? height s) eqn:E5.
+      * apply IH; [exact Hhs'|apply Inv_clear; exact HI|exact Hlh].
+      * destruct (Inv_revert s (snd h) rh HI Eh) as [HI3 Ht3]. cbn zeta in HI3, Ht3.
+        match goal with |- context [check_start_height ?s3 h] =>
+          destruct (check_start_height s3 h) as [s4 req] eqn:Ec end.
+        apply csh_spec in Ec as (HI4 & Hreq & Htip4);
+          [|exact HI3|exact Hh|intros _; symmetry; exact Ht3].
+        destruct req.
+        -- destruct (request_block MAXR LIM s4 (snd h) (fst h)) as [s5 send] eqn:Er.
+           destruct HI4 as (Hc4 & _ & Hw4).
+           apply request_block_spec in Er as (HI5 & Hs5 & _); auto.
+           apply IH; auto. intros E; contradiction.
+        -- apply IH; auto.
+Qed.
+
+End Inv.
+
+(* ---------------------------------------------------------------------------------------- *)
+(* Every operation preserves the invariant                                                   *)
+
+Section Ops.
+Variable parent_of : Z -> Z.
+Variables MAXR LIM : Z.
+Notation Inv := (Inv parent_of MAXR).
+Notation win := (win MAXR).
+
+Lemma handle_headers_inv s hs s1 res :
+  handle_headers MAXR LIM s hs = (s1, res) -> Forall (hdr_ok parent_of) hs -> Inv s -> Inv s1.
+Proof.
+  unfold handle_headers. intros H Hhs HI.
+  match type of H with (if ?b then _ else _) = _ => destruct b end.
+  - injection H as <- _. eapply Inv_ext; [| | |exact HI];
+      cbn; repeat match goal with |- context [if ?b then _ else _] => destruct b end; reflexivity.
+  - destruct (headers_loop MAXR LIM s (last_hash (rq s)) hs [] false) as [[s' r] m] eqn:El.
+    assert (HI' : Inv s').
+    { pose proof (headers_loop_inv parent_of MAXR LIM hs s (last_hash (rq s)) [] false Hhs HI) as X.
+      rewrite El in X. apply X. intros Hs. destruct HI as (_ & Hp & _).
+      destruct (Hp Hs) as (Hr & Htr & Hl). unfold last_hash. rewrite Htr, Hr. cbn. exact Hl. }
+    destruct r as [acc|]; injection H as <- _; [|exact HI'].
+    destruct m; [|exact HI']. eapply Inv_ext; [| | |exact HI']; reflexivity.
+Qed.
+
+Lemma handle_block_inv s id v s1 ok :
+  handle_block s id v = (s1, ok) -> Inv s -> Inv s1 /\ chain s1 = chain s.
+Proof.
+  unfold handle_block. intros H HI. pose proof HI as (Hc & Hp & Hw).
+  destruct (add_block (rq s) id 1) as [r1 b] eqn:E.
+  apply (add_block_win MAXR) in E as [Hw1 Hsame]; [|exact Hw].
+  destruct b; injection H as <- <-; [|split; [exact HI|reflexivity]].
+  split; [|reflexivity].
+  destruct (Z.eq_dec (start_height s) (-1)) as [Hs|Hs].
+  - destruct (Hp Hs) as (Hr & _). specialize (Hsame Hr). subst r1.
+    eapply Inv_ext; [| | |exact HI]; reflexivity.
+  - apply Inv_started; cbn; assumption.
+Qed.
+
+Lemma request_more_spec fuel : forall s acc s' reqs,
+  request_more MAXR LIM fuel s acc = (s', reqs) -> win (rq s) ->
+  win (rq s') /\ chain s' = chain s /\ start_height s' = start_height s.
+Proof.
+  induction fuel as [|f IH]; intros s acc s' reqs H Hw.
+  - injection H as <- <-. auto.
+  - cbn [request_more] in H. destruct (get_next MAXR LIM (rq s)) as [r1 res] eqn:E.
+    apply (get_next_win MAXR) in E; [|exact Hw].
+    destruct res as [[h c]|].
+    + apply IH in H as (Ha & Hb & Hc); [|cbn; exact E]. cbn in Hb, Hc. auto.
+    + injection H as <- <-. auto.
+Qed.
+
+Lemma process_block_spec s h v s2 code :
+  process_block s h v = (s2, code) ->
+  (code = 1 /\ s2 = s) \/
+  (code = 0 /\ chain s2 = chain s ++ [h] /\ rq s2 = rq s /\ start_height s2 = start_height s /\
+   contains s (fst h) = false /\ snd h = tip s).
+Proof.
+  unfold process_block. intros H.
+  destruct (contains s (fst h)) eqn:E1; [injection H as <- <-; left; auto|].
+  destruct (snd h =? tip s) eqn:E2; cbn [negb] in H; [|injection H as <- <-; left; auto].
+  destruct v; cbn [negb] in H; [|injection H as <- <-; left; auto].
+  apply Z.eqb_eq in E2. injection H as <- <-. right.
+  match goal with |- context [if ?b then _ else _] => destruct b end;
+    (split; [reflexivity|]); cbn [chain rq start_height upd_ready upd_chain];
+    (split; [reflexivity|]); (split; [reflexivity|]); (split; [reflexivity|]);
+    (split; [reflexivity|exact E2]).
+Qed.
+
+Lemma process_next_spec s s3 popped reqs :
+  process_next MAXR LIM parent_of s = (s3, popped, reqs) -> Inv s ->
+  Inv s3 /\
+  match popped with
+  | None => s3 = s
+  | Some (id, code) =>
+      (code = 1 /\ chain s3 = chain s) \/ (code = 0 /\ chain s3 = chain s ++ [(id, parent_of id)])
+  end.
+Proof.
+  unfold process_next. intros H HI. pose proof HI as (Hc & Hp & Hw).
+  destruct (next_block (rq s)) as [r1 p] eqn:En.
+  apply (next_block_win MAXR) in En as (Hw1 & Hnone & Hempty); [|exact Hw].
+  destruct p as [id|]; [|injection H as <- <- <-; auto].
+  assert (Hs : start_height s <> -1).
+  { intros Hs. destruct (Hp Hs) as (Hr & _). specialize (Hempty Hr). discriminate. }
+  cbv zeta in H.
+  match type of H with context [process_block ?a ?b ?c] =>
+    destruct (process_block a b c) as [s2 code] eqn:Epb end.
+  destruct (request_more MAXR LIM (Z.to_nat (MAXR + 1)) s2 []) as [s3' reqs'] eqn:Erm.
+  injection H as <- <- <-.
+  apply process_block_spec in Epb.
+  destruct Epb as [[-> ->]|(-> & Hch & Hrq & Hst & Hcont & Hsnd)].
+  - apply request_more_spec in Erm as (Hw3 & Hc3 & Hs3); [|cbn; exact Hw1].
+    cbn in Hc3, Hs3. split; [|left; auto].
+    apply Inv_started; [rewrite Hc3; exact Hc|exact Hw3|rewrite Hs3; exact Hs].
+  - apply request_more_spec in Erm as (Hw3 & Hc3 & Hs3); [|rewrite Hrq; cbn; exact Hw1].
+    cbn in Hch, Hst, Hsnd.
+    split; [|right; split; [reflexivity|rewrite Hc3, Hch; reflexivity]].
+    apply Inv_started; [|exact Hw3|rewrite Hs3, Hst; exact Hs].
+    rewrite Hc3, Hch. apply chain_inv_snoc; [exact Hc| |exact Hsnd].
+    split; [|reflexivity]. cbn [fst]. intros ->.
+    unfold contains in Hcont. cbn [chain upd_rq fst] in Hcont.
+    exact (eq_true_false_abs _ (chain_inv_contains0 _ _ Hc) Hcont).
+Qed.
+
+Lemma check_same s s1 outs :
+  check MAXR LIM s = (s1, outs) ->
+  chain s1 = chain s /\ rq s1 = rq s /\ start_height s1 = start_height s.
+Proof.
+  unfold check. intros H.
+  destruct (negb (version_received s)); [injection H as <- <-; auto|].
+  destruct (negb (handshake_complete s)); cbv beta iota zeta in H;
+    repeat match type of H with context [if ?b then _ else _] => destruct b end;
+    injection H as <- <-; cbn [chain rq start_height upd_hreq]; auto.
+Qed.
+
+Lemma reconnect_inv s : Inv s -> Inv (reconnect s).
+Proof.
+  intros (Hc & Hp & Hw). split; [exact Hc|]. split.
+  - intros Hs. cbn in Hs. destruct (Hp Hs) as (_ & _ & Hl). cbn. auto.
+  - apply win_nil. reflexivity.
+Qed.
+
+Lemma restart_chain s : chain (restart_node s) = chain s.
+Proof. reflexivity. Qed.
+
+Lemma restart_rq s : rq (restart_node s) = r_init (tip s).
+Proof. reflexivity. Qed.
+
+Lemma restart_inv s : Inv s -> Inv (restart_node s).
+Proof.
+  intros (Hc & Hp & Hw). split; [rewrite restart_chain; exact Hc|]. split.
+  - intros _. rewrite restart_rq. unfold tip. rewrite restart_chain. cbn. auto.
+  - apply win_nil. rewrite restart_rq. reflexivity.
+Qed.
+
+End Ops.
